@@ -244,6 +244,49 @@ func Run(c *evid.Ctx) {
 			}
 		}()
 	}
+	// the decoded copies of all values, alive at the same time, obey the same tables as the originals:
+	// a decoded value is a value of its own (decoding another one afterwards must not change it), and
+	// equality/order of two decoded values is that of the values they were decoded from
+	ds := make([]value.Value, n)
+	for i, x := range u {
+		func() {
+			defer func() { recover() }() // judged above (decoded-copy:panic)
+			out := gio.NewDataOutputX()
+			value.WriteValue(out, x.v)
+			ds[i] = value.ReadValue(gio.NewDataInputX(out.ToByteArray()))
+		}()
+	}
+	for i, x := range u {
+		if x.nan || ds[i] == nil {
+			continue
+		}
+		func() {
+			defer func() {
+				if r := recover(); r != nil {
+					viol(x, "Equals:decoded-copies-together:panic", fmt.Sprintf("%s: %v", x.name, r), nil)
+				}
+			}()
+			evals++
+			if !x.v.Equals(ds[i]) || !ds[i].Equals(x.v) {
+				viol(x, "Equals:decoded-copy-changed-by-later-decodes", fmt.Sprintf("%s equalled the decoding of its encoding when it was decoded, and no longer does after the other %d values of the universe were decoded", x.name, n-1), map[string]interface{}{"x": x.name})
+				return
+			}
+			for j, y := range u {
+				if y.nan || ds[j] == nil || eq[i][j] == 2 || cmp[i][j] == 2 {
+					continue
+				}
+				evals += 2
+				if e := ds[i].Equals(ds[j]); e != (eq[i][j] == 1) {
+					viol(x, "Equals:decoded-copies-together", fmt.Sprintf("Equals(%s, %s)=%v, but for their decoded copies (both alive) it is %v", x.name, y.name, eq[i][j] == 1, e), map[string]interface{}{"x": x.name, "y": y.name})
+					return
+				}
+				if r := int8(sgn(ds[i].CompareTo(ds[j]))); r != cmp[i][j] {
+					viol(x, "CompareTo:decoded-copies-together", fmt.Sprintf("sign of CompareTo(%s, %s) is %d, but for their decoded copies (both alive) it is %d", x.name, y.name, cmp[i][j], r), map[string]interface{}{"x": x.name, "y": y.name})
+					return
+				}
+			}
+		}()
+	}
 	// pair laws
 	typeSign := map[[2]byte]int8{}
 	typeSignWho := map[[2]byte]string{}
